@@ -44,6 +44,12 @@ CLAIMS.update({
  "C19": dict(text="Proof: regenerated opcode/field tables = AVM specification tables (versions, modes, per-version costs 1..8, field versions) by kernel computation over all 178 opcode classes, with explicit (now almost empty) exclusion lists; _verify_version / mode detection / block cost hand-modelled and tied by correspondence (flags parsed from stderr, costs from block comments).",
              note="Spec/AvmTables.v is a hand transcription of the AVM spec (trusted; no assembler offline). Remaining exclusions: Method version (pseudo-op, uncertain). Known finding D22: ed25519verify is LogicSig-only in v1-v4 programs (single mode per class in the tool).",
              tech="Coq vm_compute over regenerated tables vs spec tables + correspondence", ref="5 C19"),
+ "C01": dict(text="Proof (composition): every approving concrete execution (Spec/Exec.v) passes only through blocks whose contexts admit its field values (ExecLemmas: C06/C08/C09/C10 end to end) ; every accepting run whose blocks are unvalidated cuts down to a genuine activation-simple path (PathCut) ; the DFS reports every genuine path (SearchLemmas) ; hence a path is reported (Compose; per-detector instances in Lemmas/NoMiss.v when present). Tie: regenerated checks_field predicates, correspondence on paths + contexts of all nine detectors; property oracle: concrete interpreter over sampled groups vs run_detectors().",
+             note="Hypotheses = the recorded findings: every call returns and the program ends at a return (D4, D17), return points are not jump targets (D3, via struct_ok), no recursion, comparisons against constants only; group-size-check additionally D21 (absolute read only on a cycle). Kind-based detectors are limited by D16 (C07). The per-detector last link is proved for missing-fee-check and rekey-to only (NoMiss.v); for the others it is covered by the oracle: partial.",
+             tech="Coq proof (composition of L5, cycle cutting, DFS completeness) + correspondence + oracle", ref="5 C01"),
+ "C16": dict(text="Proof over the REGENERATED ordered rule list: every key dispatches to its own rule also when followed by arbitrary immediates (exception list = [replace], whose continuations are the opcodes replace2/replace3); decimal/hex/octal spellings parse to the same number (all n); printed form parses back for every immediate-free opcode of the table, int/pushint/intc/pragma (all n), txn/gtxn/gtxns/global over all table fields, branches/labels/addr under an explicit token predicate; leading/trailing whitespace and comments are irrelevant. Tie: regenerated rules and print formats, correspondence of parse_line/str over all rules x immediates x decorations.",
+             note="The reference grammar is the model's reading of TEAL lines (no assembler offline). base64/base32 literals are decoded in the model and compared by correspondence only. Array-field and byte-literal round trips are correspondence-only: partial.",
+             tech="Coq proof (prefix lemmas + vm_compute over the generated table, digit induction) + correspondence", ref="5 C16"),
  "C20": dict(text="Proof: reported matches = exactly the straight-line occurrences reachable from the label (independent reachability definition), no duplicates, listed in order; covered instructions all lie on a path to a match and every match is reached through covered instructions; completeness of 'covered' refuted (D14). Tie: correspondence on match lists and covered sets over programs x labels x patterns.",
              note="Known finding D14 (covered set incomplete at joins/loops). parse of the regex file header (re module) is not modelled.",
              tech="Coq proof (DFS relation, mutual induction) + correspondence", ref="5 C20"),
